@@ -66,7 +66,8 @@ def main():
         ids.append((sid, ps.split(',') if ps else None, tier))
     if not ids:
         ids = [(s, None, tier) for s in sorted(os.listdir(os.path.join(ROOT, 'seeded')))
-               if os.path.exists(os.path.join(ROOT, 'seeded', s, 'patch.diff'))]
+               if os.path.exists(os.path.join(ROOT, 'seeded', s, 'patch.diff'))
+               and not json.load(open(os.path.join(ROOT, 'seeded', s, 'meta.json'))).get('superseded')]
     missed = 0
     with ThreadPoolExecutor(jobs) as ex:
         for sid, verdicts in ex.map(run_one, ids):
